@@ -735,3 +735,43 @@ class NewObj(Obj):
 
     def __repr__(self):
         return 'NewObj%r' % (self.classes,)
+
+
+class SinkT(Obj):
+    """a text file object open for writing: f.write(s) appends to the ghost field _written"""
+
+    def __init__(self):
+        Obj.__init__(self, '_TextSink')
+
+    def __repr__(self):
+        return 'SinkT'
+
+
+def sink_attr(it, obj, name, node):
+    """attribute access on a _TextSink object (used by the interpreter's getattr)"""
+    ctx = it.ctx
+    if name == 'write':
+        def write(itp, a, k, n):
+            sv = itp.ctx.force(a[0])
+            cur = itp.ctx.read_field(obj.t, '_written')
+            itp.ctx.write_field(obj.t, '_written', VStr(z3.Concat(cur.t, sv.t)))
+            return VInt(z3.Length(sv.t))
+        f = VFunc('sink.write', write)
+        f.bind = False
+        return f
+    if name in ('flush', 'seek', 'close'):
+        f = VFunc('sink.' + name, lambda itp, a, k, n: NONE)
+        f.bind = False
+        return f
+    if name == 'read':
+        f = VFunc('sink.read', lambda itp, a, k, n: itp.ctx.read_field(obj.t, '_written'))
+        f.bind = False
+        return f
+    if name == 'buffer':
+        b = VOpaque(_other('sinkbuffer', obj.t), 'other')
+        tell = VFunc('buffer.tell', lambda itp, a, k, n: VInt(
+            z3.Function('utf8_len', z3.StringSort(), z3.IntSort())(itp.ctx.read_field(obj.t, '_written').t)))
+        tell.bind = False
+        b.attrs = {'tell': tell}
+        return b
+    return None
